@@ -195,6 +195,16 @@ def regionMatches (a : RegionArgs) (r : Row) : Bool :=
 
 def region (s : Session) (a : RegionArgs) : List Row := s.db.features.filter (regionMatches a)
 
+/-- does `region()` hand sqlite a statement it accepts?  Without any position restriction the text is
+`… WHERE  AND …` / `… WHERE ` and with an empty featuretype collection it contains `()`: both are
+`sqlite3.OperationalError` in the real code (the docstring promises `all_features()` for the first). -/
+def regionExecutable (a : RegionArgs) : Bool :=
+  (a.seqid.isSome || (truthy a.start).isSome || (truthy a.stop).isSome) && a.featuretype != some []
+
+/-- `list(db.region(...))` including that failure -/
+def regionPy (s : Session) (a : RegionArgs) : Py (List Row) :=
+  if regionExecutable a then .ok (region s a) else .error .operational
+
 /-! ### writes -/
 
 /-- `delete(ids)` -/
